@@ -25,6 +25,12 @@
 (*   PVar    a variable_player entry of gm1 that names its target ('player: 1' / 'player: 2', add to score / *)
 (*           set bonus): writes into the named player's record whoever is up (the one exemption of Frame     *)
 (*           besides SetTV); its player_<var> event carries the named player's number and values            *)
+(*   Read    a READ of player variable var of player q (who may be up, waiting for his turn, or not have joined)   *)
+(*           through one of the read paths of the code (Player attribute / item access, placeholder templates    *)
+(*           players[n].var / players[n]['var'] / current_player.var, with and without subscription, conditions  *)
+(*           of conditional events): changes NOTHING - no variable is created, no event posted, the devices      *)
+(*           still find "no state yet" when they are first loaded for q (LoadG1/LoadG2 use the configured        *)
+(*           defaults); what is read is what q owns (a variable that does not exist reads as 0)                  *)
 (*   nops/nadv/ngames/bops  budgets (bops: steps within the current ball or pause between turns)         *)
 (* machine modelled (drivers/c11.py write_machine): gm1 starts on ball_starting (c1 counter goal 3      *)
 (* disable_on_complete, a1 accrual of 2, q1 sequence of 2 reset+disable on complete, shots 1/2 in a     *)
@@ -36,6 +42,7 @@ CONSTANTS Configs,      \* records [bpg |-> balls per game, maxp |-> max players
           Acts,         \* enabled action families (partitions the exhaustive runs)
           MaxP, MaxOps, MaxAdv, MaxGames, MaxEB,
           MaxBallOps, MaxReq,   \* per ball / per pause between turns (shape the generated schedules)
+          ReadVars, ReadPaths,  \* the variables / paths that Next enumerates for Read (subsets of RVars / RPaths)
           Deviations    \* named code-as-is deviations (used by the Trace spec only: "LateModeStart")
 VARIABLES cfg, ph, np, cur, P, bound, vol, ending, evs, tevs, act, nops, nadv, ngames, bops
 vars == <<cfg, ph, np, cur, P, bound, vol, ending, evs, tevs, act, nops, nadv, ngames, bops>>
@@ -72,6 +79,36 @@ EncI(k) == CASE k = -1 -> "i:-1" [] k = 0 -> "i:0" [] k = 1 -> "i:1"
 \* change = value - prev_value where that is defined, otherwise whether the two differ
 Chg(old, new) == IF IsI(old) /\ IsI(new) THEN EncI(IntOf(new) - IntOf(old)) ELSE IF old # new THEN "T" ELSE "F"
 Truthy(c) == c \notin {"i:0", "F"}
+\* ---- reads of player variables ---------------------------------------------------------------------------------------
+\* the variables a schedule reads: everything the machine keeps in a player (the persisted device state above all) and two
+\* names nobody ever writes (shot 3 has persist_enable: false; "foo")
+RVarSeq == <<"shot_sh1_enabled", "c1_state", "shot_sh2_enabled", "c2_state", "gm2_t2_tick", "a1_state", "shot_sh1", "q1_state",
+             "shot_sh1_enabled", "achievements", "extra_balls", "foo", "c1_state", "shot_sh2", "sel", "shot_sh3_enabled",
+             "shot_sh2_enabled", "score", "ini", "gm2_t2_tick", "shot_sh3", "restart_modes_on_next_ball", "bonus", "ball", "c2_state">>
+RVars == {RVarSeq[i] : i \in DOMAIN RVarSeq}
+\* read paths: Player API (attr: getattr / player.x, item: player['x']), templates (tmpl: players[n].x, sub: players[n]['x'],
+\* tsub: evaluate_and_subscribe, tmplcur: current_player.x), conditions of conditional events (cond: ev{players[n].x},
+\* condcur: ev{current_player.x})
+RPathSeq == <<"cond", "attr", "tmpl", "item", "condcur", "sub", "tmplcur", "tsub">>
+RPaths == {RPathSeq[i] : i \in DOMAIN RPathSeq}
+ValuePaths == RPaths \ {"cond", "condcur"}       \* the value itself is seen (a condition shows its truth value only)
+NoSuchVars == {"foo", "shot_sh3_enabled"}
+\* does variable var exist in record r (Player.is_player_var) - for the variables whose existence the model tracks
+HasKnown == {"score", "bonus", "restart_modes_on_next_ball", "shot_sh1_enabled", "shot_sh2_enabled", "gm2_t2_tick",
+             "c1_state", "a1_state", "q1_state", "c2_state", "ini", "sel"} \cup NoSuchVars
+Has(r, var) == CASE var \in {"score", "bonus", "restart_modes_on_next_ball"} -> r.ex
+                 [] var = "shot_sh1_enabled" -> r.e[1] # -1 [] var = "shot_sh2_enabled" -> r.e[2] # -1
+                 [] var = "gm2_t2_tick" -> r.tick # -1
+                 [] var = "c1_state" -> r.c1.x [] var = "a1_state" -> r.a1.x [] var = "q1_state" -> r.q1.x [] var = "c2_state" -> r.c2.x
+                 [] var \in TVars -> r.tv[var] # "-"
+                 [] OTHER -> FALSE
+\* what a read of var of player q returns, written as in TVals ("n": None - the player has not joined; "?": an object, a list,
+\* a dict - not judged)
+RVal(q, var) == IF q > np THEN "n"
+                ELSE IF var \in IntVars THEN "i:" \o ToString(Val(P[q], var))
+                ELSE IF var \in TVars THEN TVRead(P[q].tv[var])
+                ELSE IF var \in NoSuchVars THEN "i:0" ELSE "?"
+RTruth(x) == x \notin {"i:0", "s:", "n"}
 \* ---- device load at mode start: look the state up in the player, create it on first use ---------------------
 LoadG1(r) == [r EXCEPT !.c1 = IF @.x THEN @ ELSE NewLB, !.a1 = IF @.x THEN @ ELSE NewLB, !.q1 = IF @.x THEN @ ELSE NewLB,
                        !.e = <<IF @[1] = -1 THEN 1 ELSE @[1], IF @[2] = -1 THEN 0 ELSE @[2]>>,
@@ -207,6 +244,12 @@ SetTV(q, var, val) ==
            posted == (Truthy(chg) \/ cell = "-") /\ val # "n"      \* only ints, floats and strings are announced
        IN /\ P' = [P EXCEPT ![q].tv[var] = val] /\ tevs' = IF posted THEN {<<var, val, prev, chg, q>>} ELSE {}
           /\ evs' = {} /\ act' = [op |-> "settv", q |-> q, var |-> var, val |-> val] /\ UNCHANGED <<bound, vol>>
+\* a read of variable var of player q through path: nothing changes (q may be any player, also one who has not joined -
+\* the Player API needs the player object, current_player.x reads the player who is up)
+Read(q, var, path) ==
+    /\ OpIn("read", {"between", "ball", "ending"}) /\ q \in Players /\ var \in RVars /\ path \in RPaths
+    /\ (path \in {"attr", "item"} => q <= np) /\ (path \in {"tmplcur", "condcur"} => q = cur)
+    /\ Step([op |-> "read", q |-> q, var |-> var, path |-> path], P, bound, vol)
 Timer(kind) == /\ OpE("timer")
                /\ LET v2 == CASE kind = "start" -> IF vol.trun THEN vol ELSE [vol EXCEPT !.trun = TRUE, !.tpause = 0]
                               [] kind = "stop" -> [vol EXCEPT !.trun = FALSE, !.tpause = 0]
@@ -258,6 +301,7 @@ Next == \/ NewGame \/ TurnStart \/ AddPlayer \/ Score \/ AwardEB \/ Rotate \/ Mo
         \/ \E i \in 1..3, kind \in {"hit", "enable", "disable"} : Shot(i, kind)
         \/ \E kind \in {"enable", "start", "complete", "stop", "disable"} : Ach(kind, AchF(kind, IF bound.gm1 = 0 THEN "none" ELSE P[bound.gm1].ach))
         \/ \E kind \in {"start", "stop", "pause"} : Timer(kind)
+        \/ \E q \in Players, var \in ReadVars, path \in ReadPaths : Read(q, var, path)
 Spec == Init /\ [][Next]_vars
 \* ---- statement of C11 -------------------------------------------------------------------------------------------
 \* devices are attached to the current player's state or to nobody; between turns to nobody
@@ -310,6 +354,10 @@ VarEvent == [][ act'.op \notin {"newgame", "addplayer"} /\ ph' # "idle" =>
                                     /\ x[2] = TVRead(P'[x[5]].tv[x[1]]) /\ x[3] = TVRead(P[x[5]].tv[x[1]])
                                     /\ x[4] = Chg(x[3], x[2])
                                     /\ (Truthy(x[4]) \/ P[x[5]].tv[x[1]] = "-") ]_vars
+\* a read is not a write: it creates, changes, initialises and announces nothing (and so the first load of a device for a
+\* player still starts from the configured defaults: LoadG1/LoadG2 see the same record)
+ReadPure == [][ act'.op = "read" => /\ P' = P /\ bound' = bound /\ vol' = vol /\ evs' = {} /\ tevs' = {}
+                                     /\ ph' = ph /\ np' = np /\ cur' = cur /\ ending' = ending ]_vars
 TypeOK == /\ ph \in {"idle", "between", "ball", "ending"} /\ np \in 0..MaxP /\ cur \in 0..MaxP /\ (ph # "idle" => cur \in 1..np)
           /\ \A p \in Players : P[p].ex <=> p <= np
 =============================================================================
